@@ -123,7 +123,7 @@ def plan(tier, seed, nproc, scale):
     shards = nproc if tier == "quick" else nproc * 4
     n = int((24000 if tier == "quick" else 400000) * scale)
     specs = [{"kind": "random", "seed": "%d/%d" % (seed, i), "n": n // shards} for i in range(shards)]
-    specs += [{"kind": "threads", "seed": "%d/t%d" % (seed, i), "runs": 2 if tier == "quick" else 30} for i in range(4 if tier == "quick" else shards)]
+    specs += [{"kind": "threads", "seed": "%d/t%d" % (seed, i), "runs": 2 if tier == "quick" else 12} for i in range(4 if tier == "quick" else nproc)]
     return specs
 
 
